@@ -191,7 +191,14 @@ var _ = fmt.Sprint
 // was produced, after all later keep-alives.
 func VerifC10Replies() {
 	db := newVerifStore()
-	p := VerifNewPool(db, db, big.NewInt(60), 60000000000, nil) // 1 unit per second and host
+	var bs store.BalanceStore = db
+	// with deposit=1 balances are read through a deposit-adding store (as with the contract-backed payment): a
+	// paying client has spent more than it earned, its credit is negative and covered by its deposit
+	paying := verifapi.Param("deposit", 0) == 1
+	if paying {
+		bs = &VerifDeposits{Store: db, Deposit: map[store.Account]*big.Int{store.Account(verifapi.Wallet(0)): big.NewInt(100000)}}
+	}
+	p := VerifNewPool(db, bs, big.NewInt(60), 60000000000, nil) // 1 unit per second and host
 	now := time.Unix(1600000000, 0)
 	verifapi.SetNow(now)
 	cid, hid := verifapi.NodeID(0), verifapi.NodeID(1)
@@ -199,9 +206,18 @@ func VerifC10Replies() {
 	db.SetNode(store.Node{ID: store.NodeID(cid), LastSeen: now})
 	db.AddNodeBalance(store.NodeID(cid), big.NewInt(300))
 	db.AddNodeBalance(store.NodeID(cid), big.NewInt(200))
-	if verifapi.Bool("linked") {
+	if paying {
+		db.AddNodeBalance(store.NodeID(cid), big.NewInt(-1000))
+	}
+	if paying || verifapi.Bool("linked") {
 		db.AddAccountNode(store.Account(verifapi.Wallet(0)), store.NodeID(cid))
 	}
+	ledger := func() int64 {
+		cb, _ := db.GetNodeBalance(store.NodeID(cid))
+		hb, _ := db.GetNodeBalance(store.NodeID(hid))
+		return cb.Credit.Int64() + hb.Credit.Int64()
+	}
+	ledger0 := ledger()
 	steps := verifapi.Param("steps", 3)
 	type seen struct {
 		resp *UpdateResponse
@@ -209,6 +225,10 @@ func VerifC10Replies() {
 	}
 	var replies []seen
 	credit := int64(500)
+	if paying {
+		credit = -500
+	}
+	start := credit
 	for k := 0; k < steps; k++ {
 		dt := []int64{10, 50}[verifapi.Choose("dt", 2)]
 		now = now.Add(time.Duration(dt) * time.Second)
@@ -225,8 +245,13 @@ func VerifC10Replies() {
 		// a host's own keep-alive reply carries its balance too
 		hresp, err := VerifUpdate(p, context.Background(), hid)
 		if err == nil && hresp != nil && hresp.Balance != nil {
-			replies = append(replies, seen{hresp, 500 - credit})
-			verifapi.Assert(hresp.Balance.Credit.Int64() == 500-credit, "c10.reply-balance-is-current")
+			replies = append(replies, seen{hresp, start - credit})
+			verifapi.Assert(hresp.Balance.Credit.Int64() == start-credit, "c10.reply-balance-is-current")
+		}
+		// answering (and logging) a keep-alive leaves the stored ledger as the charge made it
+		verifapi.Assert(ledger() == ledger0, "c01.replies.stored-ledger-sum-unchanged")
+		if cb, cerr := db.GetNodeBalance(store.NodeID(cid)); cerr == nil {
+			verifapi.Assert(cb.Credit.Int64() == credit, "c01.replies.stored-credit-is-what-was-charged")
 		}
 		for _, r := range replies {
 			verifapi.Assert(r.resp.Balance.Credit.Int64() == r.want, "c10.reply-balance-snapshot-immutable")
